@@ -182,7 +182,8 @@ def setup_scratch():
     STANDIN = _SCRATCH.path("rustfmt-standin.sh")
     with open(STANDIN, "w") as fh:
         # one record per invocation: argc, then every argument, each NUL terminated
-        fh.write('#!/bin/sh\nprintf \'%s\\0\' "$#" "$@" >> "$C19_LOG"\nexit "${C19_EXIT:-0}"\n')
+        # C19_EXIT: an exit code, or K<signal number> = die from that signal instead of exiting
+        fh.write('#!/bin/sh\nprintf \'%s\\0\' "$#" "$@" >> "$C19_LOG"\ncase "${C19_EXIT:-0}" in K*) kill -s "${C19_EXIT#K}" $$; sleep 5;; esac\nexit "${C19_EXIT:-0}"\n')
     os.chmod(STANDIN, 0o755)
     return _SCRATCH
 
@@ -542,6 +543,9 @@ def judge(sections, p, fname, exit_status, rc, records):
     return res
 
 
+X_ORDER = [0, 1, 3, "K9", "K15", "K6", "K11"]  # stand-in endings, simplest first
+
+
 def combos_for(sections):
     """The (-p, filter, stand-in exit) points explored for one diff."""
     b = p_bounds(sections)
@@ -552,6 +556,9 @@ def combos_for(sections):
             if valid and not (fname == "rs" and p > 0):  # explicit default pattern: once per diff
                 out.append((p, fname, 0))
         out.append((p, "default", 1))
+    # a failing rustfmt makes the tool fail: other exit codes, and death by a signal (no exit code at all)
+    for x in (3, "K9", "K15", "K6", "K11"):
+        out.append((0, "default", x))
     out.append((0, "invalid", 0))
     return out
 
@@ -704,7 +711,7 @@ def measure(c):
         c["U"],
         c["p"],
         FILTER_ORDER.index(c["f"]),
-        c["x"],
+        X_ORDER.index(c["x"]),
     )
 
 
@@ -886,7 +893,7 @@ def recheck(case):
 
 
 def witness_key(c):
-    return (size_key(c), c["p"], [f[0] for f in FILTERS].index(c["f"]), c["x"])
+    return (size_key(c), c["p"], [f[0] for f in FILTERS].index(c["f"]), X_ORDER.index(c["x"]))
 
 
 # --------------------------------------------------------------------------- enumeration
@@ -1097,7 +1104,7 @@ def replay(path):
             sys.exit(2)
         print(f"diff ({case['style']}, -U{case['U']}) fed on stdin:")
         print("".join("  | " + l + "\n" for l in res["diff"].split("\n")[:-1]), end="")
-        print("argv: RUSTFMT=<recording stand-in exiting %d> %s" % (case["x"], " ".join(res["argv"])))
+        print("argv: RUSTFMT=<recording stand-in ending with %s (K<n> = killed by signal n)> %s" % (case["x"], " ".join(res["argv"])))
         print(f"tool exit status: {res['rc']}")
         print(f"stand-in invocations: {json.dumps(res['records'])}")
         print(f"class: {res['class']}")
